@@ -7,13 +7,27 @@ out:  {"m": hex of the model chain run on serialize(doc) as one chunk,
                Rio.C15.filters_compose_checked answers true for this case, else ["thm-not-applicable", whyNot htmlTokenize evalStandIn (vtOf htmlTokenize) ndoc fs];
                plus "thm-universal-applies" when the proved-sound recogniser `stepsSimpleB` (Proofs/FilterDomRec.lean) accepts the
                case, i.e. the UNIVERSAL theorem Rio.C15.compose_universal_checked (no tokenizer hypothesis) covers it, else
-               "thm-universal-na:<first reason>"}
+               "thm-universal-na:<first reason>";
+               plus "thm-universal2-applies" when the hypothesis of Rio.C15.compose_universal2_checked (Props/C15b.lean) holds:
+               `stepsSimple2B` (grammar `Simple2`, Proofs/FilterDomUniv2.lean: a verbatim piece — the value an earlier filter
+               inserted — may be the serialisation of a whole `Simple` forest) or `stepsSimpleB`, else
+               "thm-universal2-na:<first reason>"; "doc-simple2" / "doc-not-simple2";
+               plus "thm-universal3-applies" when the hypothesis of Rio.C15.compose_universal3_checked holds (`stepsSimple3B`:
+               as `stepsSimple2B`, and a filter one of whose path names stands in no tag of the document it sees — the no-op
+               domain `NoOp vtP`, Proofs/FilterDomNoop.lean — is accepted as well), else "thm-universal3-na:<first reason>";
+               plus "thm-universal4-applies" when the hypothesis of Rio.C15.compose_universal4_checked holds: `stepsSimple4B`
+               evaluated on the document AS GIVEN in the case (no `normDocU`: the theorem itself merges adjacent verbatim
+               pieces before every filter, Proofs/FilterDomMerge.lean) or one of the recognisers above on the normalised
+               document, else "thm-universal4-na:<first reason>"}
 -/
 import Drivers.Common
 import RioModel.Model.FilterJson
 import RioModel.Model.FilterDom
 import RioModel.Proofs.FilterDom
 import RioModel.Proofs.FilterDomRec
+import RioModel.Proofs.FilterDomUniv2
+import RioModel.Proofs.FilterDomUniv3
+import RioModel.Proofs.FilterDomMerge
 open Lean Rio.Filter
 
 partial def node? (j : Json) : Except String Node := do
@@ -82,6 +96,43 @@ def whyNotU (ev : Bytes → Bytes → Bool) : Nat → List Node → List BodyFil
     else if !(fs.isEmpty || !(serializeList (editD (decOf ev) d f)).isEmpty) then s!"{step}empty-intermediate"
     else whyNotU ev (i + 1) (editD (decOf ev) d f) fs
 
+/-- why `stepsSimple2B` fails: the first step that does not pass, and which conjunct -/
+def whyNotU2 (ev : Bytes → Bytes → Bool) : Nat → List Node → List BodyFilter → String
+  | _, _, [] => "ok"
+  | i, d, f :: fs =>
+    let step := if i = 0 then "" else s!"step{i}-"
+    if !simple2LB d then s!"{step}not-simple2"
+    else if !decide (utf8Split (serializeList d) = some (serializeList d, [])) then s!"{step}utf8"
+    else if !decide (NoHeld2 d) then s!"{step}held"
+    else if !inDomainB htmlTokenize vtP d f then s!"{step}domain"
+    else if !(fs.isEmpty || !(serializeList (editD (decOf ev) d f)).isEmpty) then s!"{step}empty-intermediate"
+    else whyNotU2 ev (i + 1) (editD (decOf ev) d f) fs
+
+/-- why `stepsSimple3B` fails: the first step that does not pass, and which conjunct -/
+def whyNotU3 (ev : Bytes → Bytes → Bool) : Nat → List Node → List BodyFilter → String
+  | _, _, [] => "ok"
+  | i, d, f :: fs =>
+    let step := if i = 0 then "" else s!"step{i}-"
+    if !simple2LB d then s!"{step}not-simple2"
+    else if !decide (utf8Split (serializeList d) = some (serializeList d, [])) then s!"{step}utf8"
+    else if !decide (NoHeld2 d) then s!"{step}held"
+    else if !(inDomainB htmlTokenize vtP d f || noOpB vtP d f) then s!"{step}domain"
+    else if !(fs.isEmpty || !(serializeList (editD (decOf ev) d f)).isEmpty) then s!"{step}empty-intermediate"
+    else whyNotU3 ev (i + 1) (editD (decOf ev) d f) fs
+
+/-- why `stepsSimple4B` fails: the first step that does not pass, and which conjunct -/
+def whyNotU4 (ev : Bytes → Bytes → Bool) : Nat → List Node → List BodyFilter → String
+  | _, _, [] => "ok"
+  | i, d, f :: fs =>
+    let step := if i = 0 then "" else s!"step{i}-"
+    let m := mergeL d
+    if !simple2LB m then s!"{step}not-simple2"
+    else if !decide (utf8Split (serializeList d) = some (serializeList d, [])) then s!"{step}utf8"
+    else if !decide (NoHeld2 m) then s!"{step}held"
+    else if !(inDomainB htmlTokenize vtP m f || noOpB vtP m f) then s!"{step}domain"
+    else if !(fs.isEmpty || !(serializeList (editD (decOf ev) m f)).isEmpty) then s!"{step}empty-intermediate"
+    else whyNotU4 ev (i + 1) (editD (decOf ev) m f) fs
+
 /-- why `stepsOKB` fails: the first step that does not pass, and which conjunct -/
 def whyNot (tk : Tokenize) (ev : Bytes → Bytes → Bool) (vt : Bytes → List Tok) : List Node → List BodyFilter → String
   | _, [] => "ok"
@@ -123,6 +174,24 @@ def handle (j : Json) : Except String Json := do
     if uapplies then (if uRhs == out && serializeList udoc == input then ["thm-universal-applies"] else ["thm-universal-applies", "THM-RHS-DIFFERS"])
     else ["thm-universal-na:" ++ whyNotU evalStandIn 0 udoc fs]
   let docSimple : List String := if simpleLB udoc then ["doc-simple"] else ["doc-not-simple"]
-  return Json.mkObj [("m", toJson (J.hex out)), ("s", toJson (J.hex spec)), ("tags", toJson (tags ++ utags ++ docSimple))]
+  -- does the universal theorem on the wider grammar, Rio.C15.compose_universal2_checked, apply?  (same document, same right-hand side)
+  let u2applies := uapplies || stepsSimple2B evalStandIn udoc fs
+  let u2tags : List String :=
+    if u2applies then (if uRhs == out && serializeList udoc == input then ["thm-universal2-applies"] else ["thm-universal2-applies", "THM-RHS-DIFFERS"])
+    else ["thm-universal2-na:" ++ whyNotU2 evalStandIn 0 udoc fs]
+  let docSimple2 : List String := if simple2LB udoc then ["doc-simple2"] else ["doc-not-simple2"]
+  -- … and Rio.C15.compose_universal3_checked (no-op filters accepted)?
+  let u3applies := u2applies || stepsSimple3B evalStandIn udoc fs
+  let u3tags : List String :=
+    if u3applies then (if uRhs == out && serializeList udoc == input then ["thm-universal3-applies"] else ["thm-universal3-applies", "THM-RHS-DIFFERS"])
+    else ["thm-universal3-na:" ++ whyNotU3 evalStandIn 0 udoc fs]
+  -- … and Rio.C15.compose_universal4_checked, on the document as given (the theorem merges adjacent verbatim pieces itself)?
+  let u4own := stepsSimple4B evalStandIn doc fs
+  let u4Rhs := serializeList (editAllD (decOf evalStandIn) doc fs)
+  let u4tags : List String :=
+    if u4own then (if u4Rhs == out then ["thm-universal4-applies"] else ["thm-universal4-applies", "THM-RHS-DIFFERS"])
+    else if u3applies then (if uRhs == out && serializeList udoc == input then ["thm-universal4-applies"] else ["thm-universal4-applies", "THM-RHS-DIFFERS"])
+    else ["thm-universal4-na:" ++ whyNotU4 evalStandIn 0 doc fs]
+  return Json.mkObj [("m", toJson (J.hex out)), ("s", toJson (J.hex spec)), ("tags", toJson (tags ++ utags ++ docSimple ++ u2tags ++ docSimple2 ++ u3tags ++ u4tags))]
 
 def main : IO Unit := Drv.run handle
